@@ -30,4 +30,4 @@ Proof. vm_compute. split; reflexivity. Qed.
 
 (* axioms the property theorems of this file depend on (one traversal for all of them) *)
 Definition C03_theorems := (@C03_general, @C03, @C03_scanner, @C03_parser).
-Print Assumptions C03_theorems.
+Redirect "assumptions/C03" Print Assumptions C03_theorems.
